@@ -104,6 +104,7 @@ int vf_fk;                         /* focus key id */
 int vf_ft;                         /* focus type value */
 struct vf_sobj vf_oobj;            /* the object behind every non-focus entry (not tracked individually) */
 int g_user_calls;                  /* invocations of the user predicate */
+int g_tm_emplaces;                 /* typeMap.emplace() calls of the verified call */
 #define SPO_OK(s) ((s).p == 0 || ((s).p->life == VF_LIVE && (s).p->refs >= 1 && (s).p->refs < 1000))
 #define OM_OK(m) ((m).size < 10000 && (!(m).has_f || ((m).fpos < (m).size && (m).felem.first.id == vf_fk && SPO_OK((m).felem.second))) && (m).gen >= 0 && (m).gen < 1000)
 #define TM_OK(m) ((m).size < 10000 && (!(m).has_f || ((m).fpos < (m).size && (m).felem.first.id == vf_fk && (m).felem.second.size < 10000 && \
@@ -204,9 +205,9 @@ void vf_om_emplace(struct %(PIB)s *ret, struct %(OMAP)s *m, struct %(STR)s *key,
       __CPROVER_assume(ret->first.idx < m->size && !(m->has_f && ret->first.idx == m->fpos));
     } else {                                  /* ... or new: the container takes the reference over */
       val->p = 0;
-      ret->first.idx = vf_nondet_ulong();
-      __CPROVER_assume(ret->first.idx <= m->size);
-      if (m->has_f && ret->first.idx <= m->fpos) m->fpos = m->fpos + 1;
+      /* positions are an abstract enumeration order: a new entry is enumerated last, so the positions of
+         existing entries (and std::map iterators, which stay valid across insertions) do not move */
+      ret->first.idx = m->size;
       m->size = m->size + 1;
       ret->second = 1;
     }
@@ -273,6 +274,7 @@ void vf_tm_find(struct %(TIT)s *it, struct %(TMAP)s *m, struct %(STR)s *key)
 void vf_tm_emplace(struct %(PTB)s *ret, struct %(TMAP)s *m, struct %(STR)s *key, struct %(VI)s *val)
 {
   NEED_LOCK("typeMap.emplace()");
+  if (g_tm_emplaces < 100) g_tm_emplaces = g_tm_emplaces + 1;
   ret->first.m = m; ret->first.gen = m->gen;
   if (key->id == vf_fk) {
     if (m->has_f) { ret->second = 0; ret->first.idx = m->fpos; return; }
@@ -372,12 +374,12 @@ UNIT = dict(
 
 TAGMAP = {'L1': 'C17', 'L2': 'C17 C20', 'L5': 'C17', 'noexcept': 'C17 C20'}
 R3, G3 = CNT_R(1000), CNT_G(30)
-SG = 'g_user_calls, vf_oobj, vf_fobj, g_cs_has_f, g_cs_thas_f, g_cs_obj, g_cs_size, g_cs_refs, ' + GHOST_ASSIGNS
+SG = 'g_user_calls, g_tm_emplaces, vf_oobj, vf_fobj, g_cs_has_f, g_cs_thas_f, g_cs_obj, g_cs_size, g_cs_refs, ' + GHOST_ASSIGNS
 ONE_CS = 'vf_n_acq_excl == __CPROVER_old(vf_n_acq_excl) + 1 && vf_n_rel == __CPROVER_old(vf_n_rel) + 1 && vf_held == 0 && !self->mapLock.excl_me'
 # harness: a holder with arbitrary well-formed maps; the focus entry (if present) holds object fo
 SETUP = ('vf_SOH = self; vf_fobj.life = VF_LIVE; __CPROVER_assume(vf_fobj.refs >= 1 && vf_fobj.refs < 100); vf_oobj.life = VF_LIVE; __CPROVER_assume(vf_oobj.refs >= 1 && vf_oobj.refs < 100); '
          'self->objectMap.felem.second.p = vf_nondet_bool() ? &vf_fobj : (struct vf_sobj *)0; self->mapLock.guards = 0;')
-PRE = 'vf_SOH == self && SOH_OK(self) && !self->mapLock.excl_me && self->mapLock.shared_me == 0 && vf_held == 0 && !vf_exc && !vf_user_threw && g_user_calls == 0 && ' + R3
+PRE = 'vf_SOH == self && SOH_OK(self) && !self->mapLock.excl_me && self->mapLock.shared_me == 0 && vf_held == 0 && !vf_exc && !vf_user_threw && g_user_calls == 0 && g_tm_emplaces == 0 && ' + R3
 FOC = 'self->objectMap.has_f'
 OBJ = 'self->objectMap.felem.second.p'
 
@@ -468,6 +470,8 @@ FN = {
         ensures=[('C17', '(!vf_exc && copyFromName->id == vf_fk && !' + FOC + ') ==> !__CPROVER_return_value', 'copying an unknown name fails'),
                  ('C17', '(copyFromName->id == vf_fk && copyToName->id == vf_fk) ==> (!__CPROVER_return_value || !g_cs_has_f)', 'an existing target name is refused'),
                  ('C17', '(copyToName->id != vf_fk) ==> (' + FOC + ' == g_cs_has_f && ' + OBJ + ' == g_cs_obj)', 'the source entry keeps its object (the copy aliases it)'),
+                 ('C17', '(!vf_exc && __CPROVER_return_value && copyFromName->id == vf_fk && copyToName->id != vf_fk && g_cs_thas_f) ==> g_tm_emplaces == 1',
+                  'when the source name carries type tags, the copy gets a tag entry too (exactly one typeMap.emplace)'),
                  ('C17', '!vf_exc', 'no exception')],
         assigns=['*self, ' + SG, 'vf_fobj']),
     r'SearchableObjectHolder::dtor': dict(
